@@ -1,6 +1,6 @@
 #!/bin/bash
 # run every registered check once (tier from $1, default quick); prints one line per property
-cd /verif
+cd "$(dirname "$0")"
 tier=${1:-quick}
 for id in $(python3 -c "import json;print(' '.join(c['property_id'] for c in json.load(open('MANIFEST.json'))['checks']))"); do
   out=$(./check $id --tier $tier 2>&1)
